@@ -37,6 +37,8 @@ def _decorate(specs, seed):
     rng = scope.rng_for(seed, 'c02deco', mi)
     pas = mi % 4
     for l in s['links']:
+      if l['kind'] == 'F' and pas in (1, 3):
+        l['free_damping'] = float(rng.uniform(0.1, 0.8))
       for j in range(len(l['passive'])):
         d = dict(damping=0.0, armature=0.0, stiffness=0.0)
         if pas in (1, 3):
